@@ -193,6 +193,16 @@ def run_intro(schema, config, text, schedule, disable=False, variables=None):
 def check_case(case, ctx=None):
     from py_gql.utilities import introspection_query
     spec = GS.Spec(case["spec"])
+    if case.get("sibling") and case["mode"] == "code":
+        # a sibling schema (same names, rotated enum internals) is introspected first in this process: nothing of it may
+        # show up in the answer for `spec`
+        sib_schema, _ = H.make_schema(GS.sibling(spec), "code")
+        try:
+            run_intro(sib_schema, "blocking-executor", introspection_query(), [])
+        except Exception:  # noqa  (the sibling is judged when it is the subject of a case)
+            pass
+        if ctx is not None:
+            ctx.event("sibling-schema-introspected-first")
     schema, eff = H.make_schema(spec, case["mode"])
     vios = []
     want = expected_from_schema(schema)
@@ -295,7 +305,7 @@ def cases(draw, thorough=False):
     names = [n for n in spec["order"] if spec["types"][n]["kind"] in ("object", "interface", "enum")]
     probe = draw(GD.requests(eff, op_kind="query", multi_op=False, use_fragments=False)) if draw(st.booleans()) else None
     return {"spec": spec, "mode": mode, "configs": configs, "schedule": draw(st.lists(st.integers(0, 7), max_size=20)),
-            "type_queries": [draw(st.sampled_from(names))] if names else [], "probe": probe}
+            "type_queries": [draw(st.sampled_from(names))] if names else [], "probe": probe, "sibling": draw(st.booleans())}
 
 
 def shard(ctx):
